@@ -248,6 +248,7 @@ def run_case(spec, work):
         bump('chains_with_numbered_labels_shared_across_levels')
     ref = pw.make_reference(rng, work, forest=forest,
                             numbered=bool(spec.get('numbered')),
+                            pad_labels=bool(spec.get('one_leaf_children')),
                             n_levels=spec['n_levels'],
                             n_leaves=spec['n_leaves'],
                             n_genes=(int(rng.integers(30, 60))
